@@ -104,12 +104,13 @@ def sh(cmd, cwd=None, env=None, timeout=None, input=None):
 class Config:
     """one build configuration of the harness"""
 
-    def __init__(self, name, profile="dev", features=(), rustflags="", force_off=False):
-        self.name, self.profile, self.features, self.rustflags, self.force_off = (
-            name, profile, tuple(features), rustflags, force_off)
+    def __init__(self, name, profile="dev", features=(), rustflags="", env=None, build_as=None):
+        self.name, self.profile, self.features, self.rustflags = name, profile, tuple(features), rustflags
+        self.env = dict(env or {})
+        self.build_as = build_as or name  # run-time variants share the binary of another configuration
 
     def target_dir(self):
-        return os.path.join(BUILD, "h-" + self.name)
+        return os.path.join(BUILD, "h-" + self.build_as)
 
     def binary(self):
         return os.path.join(self.target_dir(), "release" if self.profile == "release" else "debug", "bc-harness")
@@ -123,6 +124,11 @@ CONFIGS = {
     "allfeat": Config("allfeat", features=("zeroize", "hazmat", "bcrypt")),
     "bcrypt": Config("bcrypt", features=("bcrypt",)),
     "hazmat": Config("hazmat", features=("hazmat",)),
+    # CPU feature detection forced off at run time through the cpufeatures shim: autodetect -> soft arm
+    "cpuoff": Config("cpuoff", env={"VERIF_CPU_OFF": "1"}, build_as="default"),
+    "cpuoff-release": Config("cpuoff-release", profile="release", env={"VERIF_CPU_OFF": "1"}, build_as="release"),
+    "zeroize-cpuoff": Config("zeroize-cpuoff", features=("zeroize",), env={"VERIF_CPU_OFF": "1"}, build_as="zeroize"),
+    "hazmat-cpuoff": Config("hazmat-cpuoff", features=("hazmat",), env={"VERIF_CPU_OFF": "1"}, build_as="hazmat"),
     "forcesoft": Config("forcesoft", rustflags="--cfg aes_force_soft"),
     "compact": Config("compact", rustflags="--cfg aes_compact"),
     "softcompact": Config("softcompact", rustflags="--cfg aes_force_soft --cfg aes_compact"),
@@ -154,7 +160,8 @@ def build_harness(cfg):
 
 
 def run_harness(cfg, ops, extra_env=None):
-    env = dict(extra_env or {})
+    env = dict(cfg.env)
+    env.update(extra_env or {})
     rc, out, err = sh([cfg.binary(), "run"], input="\n".join(ops) + "\n", env=env, timeout=3600)
     lines = out.split("\n")
     if lines and lines[-1] == "":
